@@ -452,6 +452,7 @@ def canon(r):
 FINDING_NONFINITE = "nonfinite-float-serialised-as-null"
 
 
+FINDING_NONDET = "compile-output-not-deterministic"
 FINDING_PANIC = "compile-panics-composing-error-after-multibyte"
 FINDING_FLOAT_ULP = "finite-float-not-exact-through-serde-json"
 FLOAT_TOKEN = re.compile(r'"Float":(-?[0-9][0-9.eE+-]*)')
@@ -507,7 +508,7 @@ def run(ctx):
         return
     walker = Walker(ex)
 
-    n_rand = 60 if ctx.tier == "quick" else 600
+    n_rand = 400 if ctx.tier == "quick" else 4000
     sources = list(SYSTEMATIC) + [rand_program(ctx.rng) for _ in range(n_rand)]
     sigs = [False, True] if ctx.tier == "thorough" else [False]
     option_sets = [{"format": f, "signature": s, **({"target": "sql." + d} if d else {})}
@@ -573,17 +574,20 @@ def run(ctx):
             fid = FINDING_FLOAT_ULP if ulp(a) and only_floats_differ(plj_text, a.get("pl_json2")) else None
             fail("pl_rt", fid, f"PL changes through JSON for {p!r}", {"op": "staged_full", "prql": p, "observed": {k: a.get(k) for k in ("pl_eq", "pl_json_eq", "pl_text_eq")}})
         # to_rq(from_rq y) == y, and the RQ of the re-read PL is the RQ of the PL
-        if "rq_eq" in a or "to_rq_error" in a or "rq_outcome_differs" in a or a.get("rq_errors_eq") is False or a.get("rq_of_reread_pl_eq") is False:
+        if "rq_eq" in a or "to_rq_error" in a or "rq_outcome_differs" in a or "rq_errors" in a:
             ctx.case(("rq_rt", p))
             ok = a.get("rq_eq") and a.get("rq_json_eq") and a.get("rq_of_reread_pl_eq") and "to_rq_error" not in a and "rq_outcome_differs" not in a
             if "rq_errors" in a:
-                ok = canon({"errors": a["rq_errors"]}) == canon({"errors": a.get("rq_errors_staged")})
+                ok = canon(a["rq_errors"]) == canon(a.get("rq_errors_staged"))
             if not ok:
                 fid = None
                 if ulp(a) and "to_rq_error" not in a and "rq_outcome_differs" not in a and \
                         (a.get("rq_of_reread_pl_eq") or only_floats_differ(a.get("rq_json_direct"), a.get("rq_json"))) and \
                         (a.get("rq_eq") or only_floats_differ(a.get("rq_json"), a.get("rq_json2"))):
                     fid = FINDING_FLOAT_ULP
+                rr = a.get("rq_repeat") or {}
+                if fid is None and a.get("rq_eq") and a.get("rq_json_eq") and rr.get("reread_result_reached") and rr.get("distinct_from_original_pl", 1) > 1:
+                    fid = FINDING_NONDET
                 fail("rq_rt", fid, f"RQ changes through JSON for {p!r}",
                      {"op": "staged_full", "prql": p, "observed": {k: a.get(k) for k in a if k.startswith("rq") or k.startswith("to_rq")}})
         # staged SQL == one-shot SQL (or same error), per option set
@@ -591,10 +595,12 @@ def run(ctx):
             key = (p, json.dumps(o, sort_keys=True))
             one, st, di = canon(r.get("oneshot")), canon(r.get("staged")), canon(r.get("direct"))
             ctx.case(key, nontrivial=True)
-            outcome = "sql" if "sql" in one else "error"
+            outcome = "sql" if "sql" in one else ("panic on every route alike (C12's subject)" if "panic" in one and one == di else "error")
             stage_counts[outcome] = stage_counts.get(outcome, 0) + 1
+            rep = r.get("repeat") or {}
+            nondet = bool(rep.get("common")) and (rep.get("oneshot_variants", 1) > 1 or rep.get("staged_variants", 1) > 1)
             if di != one:
-                fid = FINDING_PANIC if ("panic" in one and "is out of bounds of the source" in one["panic"] and not p.isascii() and "errors" in di) else None
+                fid = FINDING_NONDET if nondet else FINDING_PANIC if ("panic" in one and "is out of bounds of the source" in one["panic"] and not p.isascii() and "errors" in di) else None
                 fail("direct", fid, "prql_to_pl;pl_to_rq;rq_to_sql (no JSON) differs from compile",
                                    {"op": "staged_full", "prql": p, "options": o, "direct": di, "oneshot": one})
             st_cmp = {k: v for k, v in st.items() if k != "stage"}
@@ -605,6 +611,8 @@ def run(ctx):
                     fid = FINDING_FLOAT_ULP
                 if fid is None and "panic" in one and "is out of bounds of the source" in one["panic"] and not p.isascii() and "errors" in st_cmp:
                     fid = FINDING_PANIC
+                if fid is None and nondet:
+                    fid = FINDING_NONDET
                 fail("staged", fid,
                      f"staged chain through JSON differs from compile ({st.get('stage', 'sql')}): {reason[:80]}",
                      {"op": "staged_full", "prql": p, "options": o, "staged": st, "oneshot": one})
